@@ -97,7 +97,7 @@ func init() {
 		},
 		{
 			ID:          "C04",
-			Rules:       []RuleUse{use("R-GATE", "v5", "codec"), use("R-NIL"), use("R-TYPESTATE"), use("R-RAW"), use("R-STALERAW"), use("R-DISPATCH"), use("R-REPLACE"), use("R-COPYISO"), use("R-SCAN", "codec"), use("R-DRIVER", "codec"), {Rule: "R-KEYS", Bodies: []string{"v5"}, KeyHas: []string{"emitter", "obj != nil", "whole-map"}}},
+			Rules:       []RuleUse{{Rule: "R-GATE", Bodies: []string{"v5", "codec"}, KeyHas: []string{"validity-assuming parse", "sink "}}, use("R-NIL"), use("R-TYPESTATE"), use("R-RAW"), use("R-STALERAW"), use("R-DISPATCH"), use("R-REPLACE"), use("R-COPYISO"), use("R-SCAN", "codec"), use("R-DRIVER", "codec"), {Rule: "R-KEYS", Bodies: []string{"v5"}, KeyHas: []string{"emitter", "obj != nil", "whole-map"}}},
 			Explanation: "Decided for both library bodies, as a census of potential panic sites: R-GATE (every exported []byte parameter passes json.Valid before any validity-assuming parse, which panics on ill-formed text), R-NIL (every dereference of a node/container/raw message that may be the nil spelling of null is guarded on every path), R-TYPESTATE (which==eDoc implies a non-nil doc; a nil array container is confined to the root slot and scratch nodes and every consumer tests for it), R-RAW (raw is dereferenced only where it cannot be nil), R-STALERAW (raw bytes are re-read as content only while the node is unparsed), R-DISPATCH (handlers dereference only the members the validator requires for their kind), R-REPLACE (set on an array only after a successful get of the same slot, which is what bounds its index), R-COPYISO (copy never inserts an alias of the source, so no operation sequence can make a value contain itself — the encoder would never return on a cyclic document), R-SCAN + R-DRIVER (the json.Valid gate that the panic-freedom of the validity-assuming decoder rests on accepts exactly RFC 8259), R-KEYS (inserts into the member map happen only under an obj != nil fact — a nil map write panics; the trusted emitter writes names and values only through the codec's encoder, so what it emits — and the unvalidated parser later re-reads — is well-formed).",
 			NotDecided:  "termination and stack exhaustion; panics inside the inherited decoder/encoder and reflect on well-formed input (trusted codec contract); run-time out-of-memory.",
 			Trusted:     commonTrusted, Assumptions: commonAssumptions,
@@ -182,7 +182,7 @@ func init() {
 		{
 			ID:          "C16",
 			Rules:       []RuleUse{use("R-SCAN", "codec"), use("R-DRIVER", "codec"), use("R-GATE", "v5", "codec")},
-			Explanation: "Decided: R-SCAN — the language of the embedded scanner is decided COMPLETELY: the transition relation of every state function is extracted from the current source by exact byte-set abstract interpretation (7 stack contexts each) and proved language-equivalent, by product exploration with synchronised stacks, to an RFC 8259 reference pushdown automaton written independently in the checker (itself cross-checked against a recursive-descent recogniser on all strings up to length 5/6 over 16 symbols); the nesting test is len <= 10000. R-DRIVER — Valid, checkValid, compact (Compact) and Indent feed every byte of the whole input to the scanner in order, stop on scanError and accept iff eof() does; Unmarshal/UnmarshalWithKeys return checkValid's error before decoding. R-GATE — every public v5 entry point consults json.Valid on each []byte parameter before parsing; the invalid edge returns an error / false.",
+			Explanation: "Decided: R-SCAN — the language of the embedded scanner is decided COMPLETELY: the transition relation of every state function is extracted from the current source by exact byte-set abstract interpretation (7 stack contexts each) and proved language-equivalent, by product exploration with synchronised stacks, to an RFC 8259 reference pushdown automaton written independently in the checker (itself cross-checked against a recursive-descent recogniser on all strings up to length 5/6 over 16 symbols); the nesting test is len <= 10000. R-DRIVER — Valid, checkValid, compact (Compact) and Indent feed every byte of the whole input to the scanner in order, stop on scanError and accept iff eof() does; Unmarshal/UnmarshalWithKeys return checkValid's error before decoding. R-GATE — every public v5 entry point consults json.Valid on each []byte parameter before parsing; the invalid edge returns an error / false; every return that can report success lies behind the gate (one known finding: the empty document is accepted by Apply before the gate).",
 			NotDecided:  "that the decoding pass agrees with the scanner on valid input (trusted codec contract); acceptance by the legacy package is the standard library's.",
 			Trusted:     commonTrusted, Assumptions: commonAssumptions,
 		},
